@@ -167,6 +167,11 @@ class DecRun:
     def interp(self, env):
         it = Interp(env=env, on_call=self.on_call)
         it.consts = dict(CONSTS)
+        # integer constants of the file (e.g. an allocation bound)
+        for c in self.facts.items(F, "const"):
+            e = c.get("e") or {}
+            if e.get("k") == "lit" and e.get("t") == "int":
+                it.consts[c["name"]] = int(e["v"])
         return it
 
     def call_fn(self, name, args):
@@ -249,9 +254,23 @@ def run_decoder(facts, seq):
                 if model.pending is None:
                     raise Unknown("read_exact without a pending definite string header")
                 i, s = model.pending
-                model.pending = None
-                if isinstance(buf, MutList):
-                    buf.append(("badpayload", i) if s == "t3bad" else ("payload", i))
+                marker = ("badpayload", i) if s == "t3bad" else ("payload", i)
+                if not isinstance(buf, MutList):
+                    # `&mut buf[start..]`: the read fills the tail of the named buffer
+                    bufbase = None
+                    for x in vf.walk(node["a"][0]):
+                        if x["k"] == "path" and "::" not in x["p"] and isinstance(it.lookup(x["p"]), MutList):
+                            bufbase = it.lookup(x["p"])
+                            break
+                    if bufbase is None:
+                        raise Unknown("read_exact into an untracked buffer")
+                    buf = bufbase
+                if marker not in buf:
+                    buf[:] = [x for x in buf if not (isinstance(x, int) and x == 0)]
+                    buf.append(marker)
+                else:
+                    buf[:] = [x for x in buf if not (isinstance(x, int) and x == 0)]
+                # a pending payload stays pending until fully read in one or more steps
                 return ("Ok", ("tuple", []))
         if kind == "method" and name == "map_err" and isinstance(recv, tuple) and recv[0] == "Err" and node["a"] \
                 and node["a"][0].get("k") == "path" and node["a"][0]["p"].split("::")[-1] in ("into", "from"):
